@@ -736,6 +736,18 @@ class EbuildProcessor:
         # which isn't always true.
         self.pid = None
 
+    @staticmethod
+    def _quote_value(val):
+        """Quote a string so bash reads it back as exactly that single word."""
+        if val.isalnum():
+            return val
+        elif "'" not in val:
+            return f"'{val}'"
+        # $'...' interprets backslash escapes, so literal backslashes
+        # must be escaped (first) as well as the quote itself
+        escaped = val.replace("\\", "\\\\").replace("'", "\\'")
+        return f"$'{escaped}'"
+
     def _generate_env_str(self, env_dict):
         env_dict = dict(env_dict)
         # EAPI 9+ marks variables that must be set but not exported (see PMS);
@@ -757,16 +769,15 @@ class EbuildProcessor:
                 )
 
             if isinstance(val, (list, tuple)):
-                assign = f"{key}=({' '.join(f'[{i}]="{value}"' for i, value in enumerate(val))})"
-            elif val.isalnum():
-                assign = f"{key}={val}"
-            elif "'" not in val:
-                assign = f"{key}='{val}'"
+                # plain alphanumeric elements keep their double quotes; anything
+                # else isn't literal inside them and is quoted like a scalar
+                elements = (
+                    f'"{value}"' if value.isalnum() else self._quote_value(value)
+                    for value in map(str, val)
+                )
+                assign = f"{key}=({' '.join(f'[{i}]={value}' for i, value in enumerate(elements))})"
             else:
-                # $'...' interprets backslash escapes, so literal backslashes
-                # must be escaped (first) as well as the quote itself
-                escaped = val.replace("\\", "\\\\").replace("'", "\\'")
-                assign = f"{key}=$'{escaped}'"
+                assign = f"{key}={self._quote_value(val)}"
 
             (plain if key in nonexported else exported).append(assign)
 
